@@ -9,7 +9,7 @@ EXPLANATION = (
     "count is below the limit in force."
 )
 ASSUMPTIONS = ["bounds: sizes {0,1,2,3,inf}, <= 4 tasks requested, <= 3 assignments"]
-BUDGET = {"quick": 120, "thorough": 1800}
+BUDGET = {"quick": 120, "thorough": 900}
 MON = ["C15"]
 
 
